@@ -537,6 +537,83 @@ func runC09(p *core.Program, r *core.Report) {
 			walk(sl.High, nil)
 		}
 	}
+	// ---------------- AG2 completeness: a terminal node that was found is always reported.
+	// With every legitimate "absent" edge cut (empty key, nil node, lookup error) and the
+	// isValid test as a barrier, no return may be reachable: otherwise some path leaves the
+	// function for a found node without ever consulting its terminal flag.
+	{
+		isAbsent := func(fn *ssa.Function) func(*ssa.BasicBlock, int) bool {
+			x := newPathCtx(p)
+			return func(from *ssa.BasicBlock, idx int) bool {
+				iff := path.BlockIf(from)
+				if iff == nil {
+					return false
+				}
+				cd, ok := path.CondOf(iff)
+				if !ok {
+					return false
+				}
+				truth := idx == 0
+				if cd.Neg {
+					truth = !truth
+				}
+				rel := normCmp(cd.Op, truth)
+				// len(key) == 0
+				if k, isK := path.IntConst(cd.Y); isK && k == 0 && rel == "==" {
+					if call, isCall := cd.X.(*ssa.Call); isCall {
+						if b, isB := call.Call.Value.(*ssa.Builtin); isB && b.Name() == "len" {
+							return true
+						}
+					}
+				}
+				_ = x
+				v := cd.X
+				if path.IsNil(v) {
+					v = cd.Y
+				} else if !path.IsNil(cd.Y) {
+					return false
+				}
+				if prm, isP := v.(*ssa.Parameter); isP && len(fn.Params) > 0 && prm == fn.Params[0] {
+					return rel == "==" // n == nil
+				}
+				ex, isEx := v.(*ssa.Extract)
+				if !isEx {
+					return false
+				}
+				call, isCall := ex.Tuple.(*ssa.Call)
+				if !isCall || path.StaticCallee(call) != nget {
+					return false
+				}
+				if ex.Index == 0 {
+					return rel == "==" // node == nil
+				}
+				return rel == "!=" // err != nil
+			}
+		}
+		for _, fn := range []*ssa.Function{fGet, fSW, ncollect} {
+			fname := p.FuncName(fn)
+			stop := map[*ssa.BasicBlock]bool{}
+			for _, b := range fn.Blocks {
+				if iff := path.BlockIf(b); iff != nil {
+					if _, ok := isValidLoad(stripNot(iff.Cond)); ok {
+						stop[b] = true
+					}
+				}
+			}
+			reach := reachableAvoiding(fn, isAbsent(fn), stop)
+			bypass := ""
+			for b := range reach {
+				if stop[b] || b == fn.Recover {
+					continue
+				}
+				if rt, ok := b.Instrs[len(b.Instrs)-1].(*ssa.Return); ok {
+					bypass = p.InstrPos(rt)
+				}
+			}
+			c.ob("AG2", fname, "a found node's terminal flag is always consulted", c.fpos(fn), len(stop) >= 1 && bypass == "",
+				"a return is reachable for a node that was found (non-nil, no error) without passing the isValid test ("+bypass+"): a stored key can go unreported")
+		}
+	}
 	// who writes isValid: only put, on the terminal branch, with its isValid parameter; Put passes true
 	{
 		for _, st := range fieldStores(all, "node", "isValid") {
